@@ -301,6 +301,8 @@ class Models:
         self.meta[key] = dict(trusted=trusted, verified_by=verified_by)
 
     def find(self, f):
+        if isinstance(f, str):
+            return self.by_qualname.get(f)
         try:
             m = self.by_obj.get(f)
         except TypeError:
@@ -1010,6 +1012,11 @@ class Interp:
             return self._native(operator.neg, [v], {})
         if isinstance(e.op, ast.UAdd):
             return v
+        if isinstance(e.op, ast.Invert):
+            if isinstance(v, NativeModel) and hasattr(type(v), "__invert__"):
+                return v.__invert__()
+            if not is_symbolic(v):
+                return self._native(operator.invert, [v], {})
         raise Unsupported("unary op")
 
     def e_BinOp(self, e, env):
@@ -1034,7 +1041,7 @@ class Interp:
         if op is ast.Mod and isinstance(a, str) and is_symbolic(b):
             return SymStr((a, b))     # old-style formatting of a message with symbolic parts
         if (isinstance(a, NativeModel) or isinstance(b, NativeModel)) and not isinstance(a, (SymStr,)) and not isinstance(b, (SymStr,)):
-            nm = {ast.Add: "add", ast.Sub: "sub", ast.Mult: "mul", ast.Div: "truediv"}.get(op)
+            nm = {ast.Add: "add", ast.Sub: "sub", ast.Mult: "mul", ast.Div: "truediv", ast.BitOr: "or", ast.BitAnd: "and", ast.BitXor: "xor"}.get(op)
             if nm is not None:
                 if isinstance(a, NativeModel):
                     f = getattr(a, ("__i%s__" % nm) if inplace and hasattr(a, "__i%s__" % nm) else "__%s__" % nm, None)
@@ -1275,6 +1282,8 @@ class Interp:
             return self._call_function(it[0], [container, item], {}, defcls=it[1])
         if isinstance(container, SymSeq):
             raise Unsupported("`in` on symbolic sequence")
+        if isinstance(container, SV) and container.k in ("int", "real") and isinstance(item, str) and item and not any(ch.isdigit() or ch in "+-.eE" for ch in item):
+            return False          # token model: the text of a number contains no such character (':' in '3.5')
         if not is_symbolic(item) and not is_symbolic(container):
             return self._native(operator.contains, [container, item], {})
         if isinstance(container, (list, tuple, set, frozenset)) or isinstance(container, dict) or \
